@@ -307,4 +307,29 @@ theorem double_illformed_no_hash (canon : String → Option String) (h : Hasher)
   rw [double_illformed_rejected canon lex h.prime hc]
   exact ⟨_, rfl⟩
 
+/-! ### the date a day number is rendered as (Xsd.civilFromDays - Go's Time.Date behind MarshalJSON / Format) -/
+
+/-- every day number is rendered with a month in 1..12 and a day in 1..31 -/
+theorem rendered_date_fields_in_range (z : Int) :
+    let c := civilFromDays z
+    c.2.1 ≥ 1 ∧ c.2.1 ≤ 12 ∧ c.2.2 ≥ 1 ∧ c.2.2 ≤ 31 := by
+  simp only [civilFromDays]
+  omega
+
+/-- the year of the 400-year era computed from the day of the era is in 0..399 -/
+theorem year_of_era_range (doe : Int) (h0 : 0 ≤ doe) (h1 : doe < 146097) :
+    0 ≤ (doe - doe / 1460 + doe / 36524 - doe / 146096) / 365 ∧ (doe - doe / 1460 + doe / 36524 - doe / 146096) / 365 ≤ 399 := by
+  omega
+
+/-- and the day of that year is in 0..365: the year-of-era formula never overshoots the day it was computed from (the step on which
+    `daysFromCivil ∘ civilFromDays = id` rests; that composition itself is not proved - `omega` does not finish on it) -/
+theorem day_of_year_range (doe : Int) (h0 : 0 ≤ doe) (h1 : doe < 146097) :
+    let yoe := (doe - doe / 1460 + doe / 36524 - doe / 146096) / 365
+    0 ≤ doe - (365 * yoe + yoe / 4 - yoe / 100) ∧ doe - (365 * yoe + yoe / 4 - yoe / 100) ≤ 365 := by
+  intro yoe
+  have hy := year_of_era_range doe h0 h1
+  have hf : doe / 36524 = 0 ∨ doe / 36524 = 1 ∨ doe / 36524 = 2 ∨ doe / 36524 = 3 ∨ doe / 36524 = 4 := by omega
+  have hd : yoe / 100 = 0 ∨ yoe / 100 = 1 ∨ yoe / 100 = 2 ∨ yoe / 100 = 3 := by omega
+  rcases hf with hf | hf | hf | hf | hf <;> rcases hd with hd | hd | hd | hd <;> omega
+
 end Gsp.Props.C04
